@@ -1,5 +1,6 @@
 """C20 -- integer math helpers equal their mathematical definition on the whole domain (+ Aggregate combination)."""
 from vlib import Job
+import os
 
 SIX = [('i32', 32, 1), ('u32', 32, 0), ('il', 64, 1), ('ul', 64, 0), ('ill', 64, 1), ('ull', 64, 0)]
 CXX = {'i32': 'int', 'u32': 'unsigned int', 'il': 'long', 'ul': 'unsigned long', 'ill': 'long long', 'ull': 'unsigned long long'}
@@ -81,9 +82,9 @@ def jobs(tier):
     # Aggregate<double>
     CM = r'tlx::Aggregate<double>::combine_means\('
     CV = r'tlx::Aggregate<double>::combine_variance\('
-    def A(name, spec, enforce, fn, extra=(), timeout=600, tier='quick', what='', stubs=True, **kw):
+    def A(name, spec, enforce, fn, extra=(), timeout=600, tier='quick', what='', stubs=True, backend='sat', **kw):
         return Job(name=name, shim='aggregate', contract='c20_aggregate.c', harness='h_' + name, enforce=[enforce],
-                   defines=['SPEC_' + spec] + list(extra), functions=fn, timeout=timeout, tier=tier, backend='sat', what=what,
+                   defines=['SPEC_' + spec] + list(extra), functions=fn, timeout=timeout, tier=tier, backend=backend, what=what,
                    resolve={'CMFN': CM, 'CVFN': CV},
                    replace_calls=[('CMFN', 'uf_combine_means'), ('CVFN', 'uf_combine_variance')] if stubs else [], **kw)
     js.append(A('agg_add', 'add', 'c_add', [r'tlx::Aggregate<double>::add\('], stubs=False, what='Aggregate::add: count, min, max exact; first value sets mean exactly'))
@@ -94,6 +95,15 @@ def jobs(tier):
                     what='combine_means with an empty %s operand returns the other mean exactly (real body)' % ('left' if left else 'right')))
         js.append(A('agg_cv_empty_%s' % ('left' if left else 'right'), 'helper_empty', 'c_helper_empty', [CV], extra=['PUREFN=CVFN', 'WHICH_CV=1', 'EMPTY_LEFT=%d' % left], stubs=False,
                     what='combine_variance with an empty %s operand returns the other variance sum exactly (real floating-point body)' % ('left' if left else 'right')))
+    js.append(A('agg_cm_formula', 'helper_formula', 'c_helper_formula', [CM], extra=['PUREFN=CMFN', 'WHICH_CV=0'], stubs=False, timeout=120, backend='cvc5', what='combine_means == (m1*c1 + m2*c2)/(c1+c2) bit for bit, all counts >= 1 and all means (real floating-point body, word-level SMT back end)'))
+    js.append(A('agg_cv_formula', 'helper_formula', 'c_helper_formula', [CV], extra=['PUREFN=CVFN', 'WHICH_CV=1'], stubs=False, timeout=120, backend='cvc5', what='combine_variance == v1 + v2 + delta^2 * (c1*c2)/(c1+c2) bit for bit, all counts >= 1 (real floating-point body, word-level SMT back end)'))
+    # the same with the counts assigned: a refutation (a wrong weight, a wrong operand) is found in seconds here, whereas with
+    # symbolic counts the SMT solver proves the correct code quickly but may not terminate on a wrong one
+    for c1, c2 in [(1, 2), (3, 1)]:
+        js.append(A('agg_cm_formula_c%d_%d' % (c1, c2), 'helper_formula', 'c_helper_formula', [CM], extra=['PUREFN=CMFN', 'WHICH_CV=0', 'FIX_C1=%d' % c1, 'FIX_C2=%d' % c2], stubs=False, timeout=600, backend='cvc5',
+                    what='combine_means == (m1*c1 + m2*c2)/(c1+c2) bit for bit, counts %d and %d, all means (real floating-point body)' % (c1, c2)))
+        js.append(A('agg_cv_formula_c%d_%d' % (c1, c2), 'helper_formula', 'c_helper_formula', [CV], extra=['PUREFN=CVFN', 'WHICH_CV=1', 'FIX_C1=%d' % c1, 'FIX_C2=%d' % c2], stubs=False, timeout=600, backend='cvc5',
+                    what='combine_variance == v1 + v2 + delta^2 * (c1*c2)/(c1+c2) bit for bit, counts %d and %d (real floating-point body)' % (c1, c2)))
     js.append(A('agg_plus', 'plus', 'c_plus', [r'tlx::Aggregate<double>::operator\+\('],
                 what='operator+: count/min/max exact; mean and variance sum are the helpers applied to (a, b) [helpers abstracted as uninterpreted functions]'))
     js.append(A('agg_pluseq', 'pluseq', 'c_pluseq', [r'tlx::Aggregate<double>::operator\+=\('], what='a += b leaves exactly the five fields that a + b returns [helpers abstracted as uninterpreted functions]', witness_defines=['WITNESS_GENERIC']))
